@@ -9,6 +9,7 @@ import (
 	"time"
 
 	metav1 "k8s.io/apimachinery/pkg/apis/meta/v1"
+	"pgregory.net/rapid"
 
 	edsv1 "github.com/DataDog/extendeddaemonset/api/v1alpha1"
 	"verifharness/evid"
@@ -262,4 +263,152 @@ func c19Sequence(rec *evid.Rec, f fataler, auto bool, seq []string, closing stri
 		rec.Sample(desc)
 	}
 	settle(f, rec, viol, map[string]interface{}{"config": desc, "trace": w.C.Trace}, len(w.C.Trace), "config: "+desc+"\n--- trace ---\n"+strings.Join(w.C.Trace, "\n"))
+}
+
+// TestC19Queue: the controller's reading of the commands under event-driven scheduling. The commands' writes reach the
+// controllers only as watch events through the repository's own wiring (SetupWithManager: watches, predicates,
+// handlers - see wiring_test.go), reconciles run only on events and requeue requests (workQueue, virtual clock). A
+// canary (manual validation: no timer ends it) runs or has been auto-paused by restarts; after each of 1-3 command
+// bodies the system gets 3 x reconcileFrequency + 2s and must then show what the command demands.
+func TestC19Queue(t *testing.T) {
+	rec := evid.New("TestC19Queue", "C19", "event-driven scheduling with the repository's own watch wiring: 3 nodes, reconcileFrequency in {1s, 2s, 10s}, manual canary on one node, running or auto-paused by three restarts of its pod; 1-3 command bodies from {canary pause, canary unpause, canary fail, canary validate}, each followed by 3 x reconcileFrequency + 2s of event-driven running; oracle: a refused command writes nothing; pause => state Canary Paused, unpause => state Canary and Canary-Paused not True on the set, validate => the canary set is active, fail => status.canary gone and the active set unchanged; monitors paused-frozen, promotion-rule, status-function after every reconcile; non-trivial = an unpause of an auto-paused canary; distinct by configuration")
+	t.Cleanup(func() {
+		if !t.Failed() {
+			rec.Done()
+		}
+	})
+	rapid.Check(t, func(rt *rapid.T) {
+		freq := rapid.SampledFrom([]time.Duration{time.Second, 2 * time.Second, 10 * time.Second}).Draw(rt, "reconcileFrequency")
+		autoPaused := rapid.Bool().Draw(rt, "autoPaused")
+		nc := rapid.IntRange(1, 3).Draw(rt, "commands")
+		var cmds []string
+		for i := 0; i < nc; i++ {
+			cmds = append(cmds, rapid.SampledFrom([]string{"canary-pause", "canary-unpause", "canary-unpause", "canary-fail", "canary-validate"}).Draw(rt, fmt.Sprintf("cmd%d", i)))
+		}
+		desc := fmt.Sprintf("reconcileFrequency=%s autoPaused=%v commands=%v", freq, autoPaused, cmds)
+		var viol []mon.V
+		w := &World{rec: rec, cfg: WorldCfg{Monitors: mon.Of("paused-frozen", "promotion-rule", "status-function", "no-panic"), Property: "C19"}, H: mon.NewHistory(), RSSeen: map[string]bool{}, RolesSynced: map[string]bool{}, Facts: map[string]int{}, lastSyncAt: map[string]time.Time{}, Det: true}
+		w.OnViolation = func(vs []mon.V) { viol = append(viol, vs...) }
+		w.C = sim.New(sim.Options{})
+		for i := 0; i < 3; i++ {
+			w.C.AddNode(fmt.Sprintf("n%d", i+1), map[string]string{"zone": "a", "tier": "a"}, nil)
+		}
+		pe, fe := true, true
+		pm, fm := int32(2), int32(8)
+		st := edsv1.ExtendedDaemonSetSpecStrategy{ReconcileFrequency: &metav1.Duration{Duration: freq}}
+		st.RollingUpdate.MaxUnavailable = gen.ParseIntOrPercent("100%")
+		st.RollingUpdate.SlowStartAdditiveIncrease = gen.ParseIntOrPercent("10")
+		st.Canary = &edsv1.ExtendedDaemonSetSpecStrategyCanary{Replicas: gen.ParseIntOrPercent("1"), ValidationMode: edsv1.ExtendedDaemonSetSpecStrategyCanaryValidationModeManual,
+			AutoPause: &edsv1.ExtendedDaemonSetSpecStrategyCanaryAutoPause{Enabled: &pe, MaxRestarts: &pm}, AutoFail: &edsv1.ExtendedDaemonSetSpecStrategyCanaryAutoFail{Enabled: &fe, MaxRestarts: &fm}}
+		k := sim.KeyOf("ns1", "foo")
+		w.EDS = append(w.EDS, k)
+		q := newWorkQueue(w)
+		stop := func() bool { return len(viol) > 0 }
+		add := func(sig, detail string) {
+			if !stop() {
+				viol = append(viol, mon.V{Property: "C19", Monitor: "queue", Sig: sig, Detail: detail + " (" + desc + ")"})
+			}
+		}
+		q.env(func() {
+			w.C.Add(&edsv1.ExtendedDaemonSet{ObjectMeta: metav1.ObjectMeta{Namespace: "ns1", Name: "foo"}, Spec: edsv1.ExtendedDaemonSetSpec{Template: gen.LetterTemplate('A'), Strategy: st}})
+		})
+		run := func(d time.Duration) { q.runUntil(w.C.Now().Add(d), 6000, stop) }
+		settleD := 3*freq + 2*time.Second
+		for i := 0; i < 20 && !stop(); i++ {
+			if e := w.C.EDS(k.Namespace, k.Name); e != nil && e.Status.Ready == 3 {
+				break
+			}
+			run(freq + time.Second)
+		}
+		q.env(func() { w.editTemplate(k, 'B') })
+		crs := ""
+		for i := 0; i < 20 && !stop() && crs == ""; i++ {
+			run(freq + time.Second)
+			if e := w.C.EDS(k.Namespace, k.Name); e != nil && e.Status.Canary != nil {
+				for _, p := range w.C.Pods() {
+					if p.Labels[oracle.LabelRSName] == e.Status.Canary.ReplicaSet && oracle.IsReady(p) {
+						crs = e.Status.Canary.ReplicaSet
+					}
+				}
+			}
+		}
+		if crs == "" {
+			if !stop() {
+				rt.Fatalf("harness: the canary did not start (%s)\n%s", desc, strings.Join(tail(w.C.Trace, 60), "\n"))
+			}
+			settle(rt, rec, viol, map[string]interface{}{"config": desc, "trace": tail(w.C.Trace, 200)}, len(w.C.Trace), desc)
+			return
+		}
+		activeBefore := w.C.EDS(k.Namespace, k.Name).Status.ActiveReplicaSet
+		if autoPaused {
+			q.env(func() {
+				for _, p := range w.C.Pods() {
+					if p.Labels[oracle.LabelRSName] == crs {
+						for i := 0; i < 3; i++ {
+							w.C.Restart(p.Namespace, p.Name, 0, "Error")
+						}
+					}
+				}
+			})
+			run(settleD)
+			if e := w.C.EDS(k.Namespace, k.Name); !stop() && e.Status.State != edsv1.ExtendedDaemonSetStatusStateCanaryPaused {
+				add("C19/queue/auto-pause-not-shown", fmt.Sprintf("%s after three restarts of the canary pod the state is %q", settleD, e.Status.State))
+			}
+		}
+		unpausedAutoPaused := false
+		for ci, cmd := range cmds {
+			if stop() {
+				break
+			}
+			e := w.C.EDS(k.Namespace, k.Name)
+			if e.Status.Canary == nil || e.Status.Canary.ReplicaSet != crs {
+				break // the canary is over (validated or failed): the remaining commands have nothing to act on
+			}
+			before := w.C.Snapshot()
+			var out string
+			var err error
+			q.env(func() { out, err = c19Run(w.C, cmd, k.Namespace, k.Name) })
+			w.C.Tracef("command %s -> err=%v %s", cmd, err, strings.TrimSpace(out))
+			if err != nil {
+				if d := c19Diff(before, w.C.Snapshot(), "none", "", "", ""); len(d) > 0 {
+					add("C19/queue/"+cmd+"/writes-although-refusing", fmt.Sprintf("%s returned %v but changed: %s", cmd, err, strings.Join(d, "; ")))
+				}
+				continue
+			}
+			if cmd == "canary-unpause" && autoPaused {
+				unpausedAutoPaused = true
+			}
+			run(settleD)
+			if stop() {
+				break
+			}
+			e = w.C.EDS(k.Namespace, k.Name)
+			rs := w.C.ERS(k.Namespace, crs)
+			still := e.Status.Canary != nil && e.Status.Canary.ReplicaSet == crs && rs != nil && !oracle.RSCondTrue(&rs.Status, edsv1.ConditionTypeCanaryFailed)
+			switch cmd {
+			case "canary-pause":
+				if still && e.Status.State != edsv1.ExtendedDaemonSetStatusStateCanaryPaused {
+					add("C19/interpretation/pause-not-reflected/event-driven", fmt.Sprintf("%s after command %d (canary pause) the state is %q", settleD, ci+1, e.Status.State))
+				}
+			case "canary-unpause":
+				if still && e.Status.State != edsv1.ExtendedDaemonSetStatusStateCanary {
+					add("C19/interpretation/unpause-not-reflected/event-driven", fmt.Sprintf("%s after command %d (canary unpause) the state is %q reason %q; Canary-Paused on %s: %v", settleD, ci+1, e.Status.State, e.Status.Reason, crs, oracle.RSCondTrue(&rs.Status, edsv1.ConditionTypeCanaryPaused)))
+				}
+			case "canary-validate":
+				if e.Status.ActiveReplicaSet != crs {
+					add("C19/interpretation/validated-set-not-active/event-driven", fmt.Sprintf("%s after canary validate status.activeReplicaSet=%q, the validated canary was %q", settleD, e.Status.ActiveReplicaSet, crs))
+				}
+			case "canary-fail":
+				if e.Status.ActiveReplicaSet != activeBefore || e.Status.Canary != nil {
+					add("C19/interpretation/fail-no-rollback/event-driven", fmt.Sprintf("%s after canary fail: status.activeReplicaSet=%q (was %q), status.canary=%v", settleD, e.Status.ActiveReplicaSet, activeBefore, e.Status.Canary))
+				}
+			}
+		}
+		rec.Case(unpausedAutoPaused, evid.FP(desc), fmt.Sprintf("auto-paused=%v", autoPaused), fmt.Sprintf("frequency=%s", freq))
+		rec.Steps(q.Steps)
+		if unpausedAutoPaused && rec.WantSample() {
+			rec.Sample(desc)
+		}
+		settle(rt, rec, viol, map[string]interface{}{"config": desc, "trace": tail(w.C.Trace, 200)}, len(w.C.Trace), "config: "+desc+"\n--- trace (tail) ---\n"+strings.Join(tail(w.C.Trace, 80), "\n"))
+	})
 }
